@@ -169,8 +169,11 @@ def legendre(l, mu):
 LEGENDRE_ABS = {0: 1.0, 1: 1.0, 2: 2.0, 3: 4.0, 4: 8.5}
 
 
-def kmu_reference(model, values, kedges_sq, muedges_sq, poles, kunit):
+def kmu_reference(model, values, kedges_sq, muedges_sq, poles, kunit, scales=None):
     """Expected (k, mu) table for `model`.
+
+    scales (optional, flat like values): magnitude of each stored value for the tolerance, when the value itself is
+    a cancelling sum computed in low precision by the code under test (cross power Re(conj(a) b)); default |value|.
 
     values: flat float64 array of the stored mesh; kedges_sq / muedges_sq: squared edges (mode
     units / dimensionless), float64; kunit: physical size of one mode unit (for the mean |k|).
@@ -188,27 +191,28 @@ def kmu_reference(model, values, kedges_sq, muedges_sq, poles, kunit):
     mb = np.where(dc, nm, mb)
     r = bin_bounds(ka, kb, ma, mb, model.mult, nk, nm)
     v = np.asarray(values, dtype=np.float64).ravel()[model.src]
+    av = np.abs(v) if scales is None else np.asarray(scales, dtype=np.float64).ravel()[model.src]
     w = model.mult.astype(np.float64)
     d = r.definite
     r.sum_v = np.zeros((nk, nm))
     r.sum_abs = np.zeros((nk, nm))
     r.sum_k = np.zeros((nk, nm))
     np.add.at(r.sum_v, (r.bx[d], r.by[d]), (w * v)[d])
-    np.add.at(r.sum_abs, (r.bx[d], r.by[d]), (w * np.abs(v))[d])
+    np.add.at(r.sum_abs, (r.bx[d], r.by[d]), (w * av)[d])
     np.add.at(r.sum_k, (r.bx[d], r.by[d]), (w * np.sqrt(k2) * kunit)[d])
     # multipoles: per k bin, all mu
     dx = r.x_definite
     mu = np.sqrt(np.where(dc, 0.0, mu2))
     r.pole_sum = {}
     r.abs_x = np.zeros(nk)
-    np.add.at(r.abs_x, ka[dx] - 1, (w * np.abs(v))[dx])
+    np.add.at(r.abs_x, ka[dx] - 1, (w * av)[dx])
     for l in poles:
         s = np.zeros(nk)
         np.add.at(s, ka[dx] - 1, (w * v * (2 * l + 1) * legendre(l, mu))[dx])
         r.pole_sum[int(l)] = s
     # the DC mode's mu is a convention: record where it can be and how much it carries
     r.dc_bins = sorted(set(range(int(ka[dc].min()) - 1, int(kb[dc].max()))) & set(range(nk))) if dc.any() else []
-    r.dc_abs = float((w * np.abs(v))[dc].sum()) if dc.any() else 0.0
+    r.dc_abs = float((w * av)[dc].sum()) if dc.any() else 0.0
     r.n_ties = int(model.mult[r.ambiguous & ~dc].sum())  # rounding ties proper (the DC mode apart)
     return r
 
